@@ -8,6 +8,7 @@ import (
 	"os"
 	"sort"
 	"strings"
+	"time"
 
 	"github.com/syndtr/goleveldb/leveldb"
 
@@ -283,6 +284,12 @@ func init() {
 	register("vdb", func(c *Ctx) {
 		for seq := 0; seq < c.N; seq++ {
 			vdbSequence(c, seq)
+			if seq%40 == 7 {
+				vdbDeepCache(c, seq)
+			}
+			if seq%25 == 3 {
+				vdbTwoWriters(c, seq)
+			}
 		}
 	})
 }
@@ -679,19 +686,28 @@ func vdbSequence(c *Ctx, seq int) {
 				ops := patchOps(ch)
 				c.Emit("vdb-changes %s | %s", v.name, opsString(ops, false))
 				c.Hit("changes")
-				if !v.isSub {
-					// statement: the change set replays to exactly those writes
+				{
+					// statement: the change set replays to exactly those writes (for a Subset window: the writes of the
+					// layer it looks into that fall under its prefix, with the prefix removed)
+					owner, pre := v, []byte{}
+					for owner.isSub {
+						pre = append(append([]byte{}, owner.prefix...), pre...)
+						owner = owner.parent
+					}
 					var want []string
-					ks := make([]string, 0, len(v.writes))
-					for k := range v.writes {
-						ks = append(ks, k)
+					ks := make([]string, 0, len(owner.writes))
+					for k := range owner.writes {
+						if bytes.HasPrefix([]byte(k), pre) {
+							ks = append(ks, k)
+						}
 					}
 					sort.Strings(ks)
 					for _, k := range ks {
-						if v.writes[k] == nil {
-							want = append(want, "d:"+hx([]byte(k)))
+						kk := []byte(k)[len(pre):]
+						if owner.writes[k] == nil {
+							want = append(want, "d:"+hx(kk))
 						} else {
-							want = append(want, "p:"+hx([]byte(k))+"="+hx(v.writes[k]))
+							want = append(want, "p:"+hx(kk)+"="+hx(owner.writes[k]))
 						}
 					}
 					w := strings.Join(want, ",")
@@ -724,6 +740,230 @@ func vdbSequence(c *Ctx, seq int) {
 				}
 			}
 			c.Hit("revalidate")
+		}
+	}
+}
+
+// vdbDeepCache: a view far below the frontier (beyond maximumCacheHeightDifference, so its overlay goes to the second
+// cache level), then a branch switch at the frontier, then the view again — every read must still be the state as of X.
+func vdbDeepCache(c *Ctx, seq int) {
+	dir, err := os.MkdirTemp("", "zvdb")
+	if err != nil {
+		panic(err)
+	}
+	defer os.RemoveAll(dir)
+	m := db.NewLevelDBManager(dir)
+	defer func() { safely(func() { m.Stop() }) }()
+	_, _, maxDiff := db.CacheConstantsVerif()
+	c.Emit("vdb-reset")
+	counter := uint64(seq)<<32 | 1<<30
+	newHash := func() types.Hash {
+		counter++
+		var h types.Hash
+		binary.BigEndian.PutUint64(h[:8], counter)
+		h[31] = 1
+		return h
+	}
+	var chain []types.HashHeight
+	specs := map[string]shadow{"0:": {}}
+	commit := func(ops []kvOp) bool {
+		prev := types.ZeroHashHeight
+		pk := "0:"
+		if len(chain) > 0 {
+			prev = chain[len(chain)-1]
+			pk = idStr(prev)
+		}
+		id := types.HashHeight{Height: prev.Height + 1, Hash: newHash()}
+		p := db.NewPatch()
+		for _, o := range ops {
+			if o.del {
+				p.Delete(o.k)
+			} else {
+				p.Put(o.k, o.v)
+			}
+		}
+		if err := m.Add(&vTx{commits: []db.Commit{&vCommit{id: id, prev: prev}}, patch: p}); err != nil {
+			c.Fail("vdb deep seq=%d: commit refused: %v", seq, err)
+			return false
+		}
+		c.Emit("vdb-add %s %s %s | ok", pk, idStr(id), opsString(ops, false))
+		ns := specs[pk].clone()
+		for _, o := range ops {
+			if o.del {
+				delete(ns, string(o.k))
+			} else {
+				ns[string(o.k)] = o.v
+			}
+		}
+		specs[idStr(id)] = ns
+		chain = append(chain, id)
+		return true
+	}
+	genOps := func() []kvOp {
+		n := 1 + c.R.Intn(3)
+		ops := make([]kvOp, 0, n)
+		for i := 0; i < n; i++ {
+			if c.R.Intn(5) == 0 {
+				ops = append(ops, kvOp{del: true, k: vdbKey(c)})
+			} else {
+				ops = append(ops, kvOp{k: vdbKey(c), v: append(vdbVal(c), 1)})
+			}
+		}
+		return ops
+	}
+	depth := maxDiff + 5 + c.R.Intn(30)
+	for i := 0; i < depth; i++ {
+		if !commit(genOps()) {
+			return
+		}
+	}
+	nviews := 0
+	check := func(x types.HashHeight, what string) bool {
+		d := m.Get(x)
+		name := fmt.Sprintf("d%d", nviews)
+		nviews++
+		if d == nil {
+			c.Emit("vdb-view %s %s | nil", name, idStr(x))
+			c.Fail("vdb deep seq=%d: view at %s (on the chain, %d below the frontier) could not be opened", seq, idStr(x), len(chain)-int(x.Height))
+			return false
+		}
+		c.Emit("vdb-view %s %s | ok", name, idStr(x))
+		v := &vView{name: name, d: d, base: specs[idStr(x)].clone(), writes: map[string][]byte{}, version: idStr(x), hist: true}
+		got, _, _ := scanDB(d, nil)
+		for _, pfx := range [][]byte{{3}, {4}} {
+			g1, _, _ := scanDB(d, pfx)
+			c.Emit("vdb-scan %s %s | %s", name, hx(pfx), g1)
+		}
+		keys := map[string]bool{}
+		v.keys(keys)
+		ks := make([]string, 0, len(keys))
+		for k := range keys {
+			ks = append(ks, k)
+		}
+		sort.Strings(ks)
+		var want []string
+		for _, k := range ks {
+			val, ok := v.lookup([]byte(k))
+			gv, gerr := d.Get([]byte(k))
+			has, _ := d.Has([]byte(k))
+			if ok {
+				want = append(want, hx([]byte(k))+"="+hx(val))
+			}
+			if ok != (gerr == nil) || ok != has || (ok && !bytes.Equal(gv, val)) {
+				c.Fail("vdb deep seq=%d %s: view at %s (%d commits below the frontier) key %s: store says (%s,%v,has=%v), state as of that commit: present=%v value=%s", seq, what, idStr(x), len(chain)-int(x.Height), hx([]byte(k)), hx(gv), gerr, has, ok, hx(val))
+				return false
+			}
+		}
+		w := strings.Join(want, ",")
+		if w == "" {
+			w = "empty"
+		}
+		if got != w && got != dropEmpty(v, want) {
+			c.Fail("vdb deep seq=%d %s: view at %s ordered scan is [%s], state as of that commit is [%s]", seq, what, idStr(x), got, w)
+			return false
+		}
+		return true
+	}
+	early := chain[c.R.Intn(4)]
+	near := chain[len(chain)-3]
+	if !check(early, "before the switch") || !check(near, "before the switch") {
+		return
+	}
+	// branch switch of depth 1..3 at the frontier
+	k := 1 + c.R.Intn(3)
+	for i := 0; i < k; i++ {
+		if err := m.Pop(); err != nil {
+			c.Fail("vdb deep seq=%d: pop failed: %v", seq, err)
+			return
+		}
+		c.Emit("vdb-pop | ok")
+		chain = chain[:len(chain)-1]
+	}
+	for i := 0; i < k+c.R.Intn(2); i++ {
+		if !commit(genOps()) {
+			return
+		}
+	}
+	if !check(early, "after a branch switch at the frontier") || !check(chain[len(chain)-k-2], "after a branch switch at the frontier") {
+		return
+	}
+	c.Hit("deep-cache-scenario")
+}
+
+// gatedPatch lets the harness stop a commit at the points where ldbManager.Add calls into the patch.
+type gatedPatch struct {
+	db.Patch
+	onDump func()
+}
+
+func (g *gatedPatch) Dump() []byte {
+	if g.onDump != nil {
+		f := g.onDump
+		g.onDump = nil
+		f()
+	}
+	return g.Patch.Dump()
+}
+
+// vdbTwoWriters: two commits on the SAME parent issued concurrently, with the first one held while it owns the
+// manager's lock (inside Dump, right before its write). Whatever the interleaving, exactly one of them may be applied:
+// afterwards the frontier is one of the two, and the store holds exactly that commit's keys on top of the parent.
+func vdbTwoWriters(c *Ctx, seq int) {
+	dir, err := os.MkdirTemp("", "zvdb")
+	if err != nil {
+		panic(err)
+	}
+	defer os.RemoveAll(dir)
+	m := db.NewLevelDBManager(dir)
+	defer func() { safely(func() { m.Stop() }) }()
+	mk := func(h uint64, tag byte) types.HashHeight {
+		var hash types.Hash
+		binary.BigEndian.PutUint64(hash[:8], uint64(seq)<<32|uint64(tag)<<16|h)
+		hash[31] = 2
+		return types.HashHeight{Height: h, Hash: hash}
+	}
+	base := db.NewPatch()
+	base.Put([]byte{3, 1}, []byte{1})
+	root := mk(1, 0)
+	if err := m.Add(&vTx{commits: []db.Commit{&vCommit{id: root, prev: types.ZeroHashHeight}}, patch: base}); err != nil {
+		c.Fail("vdb writers seq=%d: %v", seq, err)
+		return
+	}
+	ida, idb := mk(2, 1), mk(2, 2)
+	pa, pb := db.NewPatch(), db.NewPatch()
+	pa.Put([]byte{3, 0xa}, []byte{0xa})
+	pb.Put([]byte{3, 0xb}, []byte{0xb})
+	hold, inLock := make(chan struct{}), make(chan struct{})
+	ga := &gatedPatch{Patch: pa, onDump: func() { close(inLock); <-hold }}
+	done := make(chan error, 2)
+	go func() { done <- m.Add(&vTx{commits: []db.Commit{&vCommit{id: ida, prev: root}}, patch: ga}) }()
+	<-inLock // writer A is accepted and about to write, holding the lock
+	go func() { done <- m.Add(&vTx{commits: []db.Commit{&vCommit{id: idb, prev: root}}, patch: pb}) }()
+	// give writer B time to reach the lock (or, if the frontier is read before the lock, to read a stale frontier)
+	time.Sleep(time.Duration(20+c.R.Intn(40)) * time.Millisecond)
+	close(hold)
+	<-done
+	<-done
+	f := m.Frontier()
+	fid := db.GetFrontierIdentifier(f)
+	_, ha := f.Get([]byte{3, 0xa})
+	_, hb := f.Get([]byte{3, 0xb})
+	hasA, hasB := ha == nil, hb == nil
+	c.Hit("two-writers")
+	switch {
+	case fid == ida && hasA && !hasB:
+	case fid == idb && hasB && !hasA:
+	default:
+		c.Fail("vdb writers seq=%d: two commits on the same parent issued concurrently: frontier is %s (A=%s B=%s) and the store holds A's key=%v B's key=%v — a commit on a parent that is no longer the frontier was applied", seq, idStr(fid), idStr(ida), idStr(idb), hasA, hasB)
+		return
+	}
+	// the view at the parent still shows the parent's state
+	if v := m.Get(root); v != nil {
+		if _, e := v.Get([]byte{3, 0xa}); e == nil {
+			c.Fail("vdb writers seq=%d: view at the parent shows the key written by a later commit", seq)
+		}
+		if _, e := v.Get([]byte{3, 0xb}); e == nil {
+			c.Fail("vdb writers seq=%d: view at the parent shows the key written by a later commit", seq)
 		}
 	}
 }
